@@ -22,7 +22,8 @@ RULE = ("states = (multiset of <=N respondent events, each event = m identical r
         "{1,3} on the amplified schemas, config: subtotal column/row, alpha pair, only-larger flag, column "
         "order / hide); non-trivial = some pair of columns in some row has a finite non-zero t; distinct "
         "= distinct t tensors")
-ASSUMPTIONS = ["t is unasserted where its denominator is exactly zero (0/0 or x/0)",
+ASSUMPTIONS = ["t is unasserted where it is 0/0; x/0 (two degenerate, different columns) is +-inf with p = 0 on the "
+               "plain path, unasserted on the overlap / means / squared-weight paths",
                "overlap-corrected variant as implemented from the overlap / valid_overlap measures: "
                "t = (p_b - p_a)/sqrt((pa(1-pa)+pb(1-pb)+2 pa pb-2 pab)/df), df = Na+Nb-Nab, p with df-2",
                "difference subtotals are excluded as selected/compared columns",
@@ -242,6 +243,11 @@ def check(space, state):
                 if pa != pa or pb != pb or not na or not nb or na != na or nb != nb:
                     continue
                 den = pa * (1 - pa) / na + pb * (1 - pb) / nb
+                if den == 0 and pb != pa and na + nb - 2 > 0 and not (sch.squared):
+                    # both columns degenerate (0 % or 100 %) and different: x/0 is +-inf (the most different pair
+                    # there is), two-sided p = 0
+                    T[sj, ri, ck], P[sj, ri, ck], ASSERT[sj, ri, ck] = (math.inf if pb > pa else -math.inf), 0.0, True
+                    continue
                 if den <= 0:
                     continue
                 tv = (pb - pa) / math.sqrt(den)
